@@ -377,6 +377,9 @@ func (fd *Client) Query(ctx context.Context, input *dynamodb.QueryInput, opt ...
 	}
 
 	indexName := aws.ToString(input.IndexName)
+	if _, ok := table.Indexes[indexName]; indexName != "" && !ok {
+		return nil, &smithy.GenericAPIError{Code: "ValidationException", Message: "The table does not have the specified index: " + indexName}
+	}
 
 	if input.ScanIndexForward == nil {
 		input.ScanIndexForward = aws.Bool(true)
@@ -415,6 +418,9 @@ func (fd *Client) Scan(ctx context.Context, input *dynamodb.ScanInput, opt ...fu
 	}
 
 	indexName := aws.ToString(input.IndexName)
+	if _, ok := table.Indexes[indexName]; indexName != "" && !ok {
+		return nil, &smithy.GenericAPIError{Code: "ValidationException", Message: "The table does not have the specified index: " + indexName}
+	}
 
 	items, lastKey := table.SearchData(core.QueryInput{
 		Index:                     indexName,
